@@ -47,6 +47,7 @@ Vocab ==
     T([p |-> "newer", x |-> "m", y |-> "m", ref |-> 9]),                                 \* -newer d/lf (the link, or d/f under -L)
     [k |-> "regex", ast |-> RXAST, fold |-> FALSE, text |-> RX!Concrete(RXAST, "emacs")], \* -regex '.*/[el].'
     [k |-> "print", delim |-> 10, file |-> 1],                                           \* -fprint F1
+    [k |-> "gopt", o |-> "depth"], [k |-> "gopt", o |-> "maxdepth", n |-> 1],           \* -depth, -maxdepth 1 inside the expression
     [k |-> "prune"], [k |-> "quit"], [k |-> "print", delim |-> 0],
     [k |-> "printf", fmt |-> <<37, 121, 37, 109, 58, 37, 80, 92, 110>>] }            \* -printf '%y%m:%P\n'
 
@@ -64,20 +65,28 @@ roots == << [spell |-> <<100>>, node |-> 1] >>
 ok == SemParse(words).ok
 res == FindResult(words, TREE, cfg, roots)
 out == res.outs[0]
-U == WalkRoots(TREE, cfg, roots).ents
+ecfg == EffCfg(words, cfg)
+U == WalkRoots(TREE, ecfg, roots).ents
 
 \* without -prune and -quit the composition is the reference walk with the expression applied to every entry
 NoCutLaw ==
   (picked /\ ok /\ ~\E i \in DOMAIN words : words[i].k \in {"prune", "quit"}) =>
-     out = Flatten([k \in DOMAIN U |-> EntryEval(words, TREE, cfg, <<100>>, U[k]).out])
+     out = Flatten([k \in DOMAIN U |-> EntryEval(words, TREE, ecfg, <<100>>, U[k]).out])
 \* an expression without action prints exactly the paths on which it is true, one per line
 DefaultPrintLaw ==
   (picked /\ ok /\ words # <<>> /\ ~SemHasAction(words) /\ ~\E i \in DOMAIN words : words[i].k \in {"prune", "quit"}) =>
-     out = Flatten([k \in DOMAIN U |-> IF SEval(SemParse(words).ast, words, TREE, cfg, <<100>>, U[k]).v THEN U[k].path \o <<10>> ELSE <<>>])
+     out = Flatten([k \in DOMAIN U |-> IF SEval(SemParse(words).ast, words, TREE, ecfg, <<100>>, U[k]).v THEN U[k].path \o <<10>> ELSE <<>>])
 \* -prune changes nothing under -depth
 PruneDepthLaw ==
-  (picked /\ ok /\ depth) =>
+  (picked /\ ok /\ ecfg.depth) =>
      out = FindOutput(SelectSeq([i \in DOMAIN words |-> IF words[i].k = "prune" THEN [k |-> "const", v |-> TRUE] ELSE words[i]], LAMBDA w : TRUE), TREE, cfg, roots)
+
+\* a global option has the same effect wherever it stands: moving -depth / -maxdepth 1 to the front (where it is
+\* and-ed with the rest) changes nothing as long as it stands where its own truth value cannot matter
+GoptLaw ==
+  (picked /\ ok /\ words # <<>> /\ words[Len(words)].k = "gopt" /\ Len(words) >= 2 /\ words[Len(words) - 1].k # "op"
+   /\ ~\E i \in DOMAIN words : words[i].k = "op") =>
+     out = FindOutput(<<words[Len(words)]>> \o SubSeq(words, 1, Len(words) - 1), TREE, cfg, roots)
 
 \* the regex word as the harness takes it: the members of a set as a sequence
 RECURSIVE Seqd(_)
